@@ -1252,6 +1252,7 @@ PROPS["C17"] = {
         "Lace.C17.bpCell_length",
         "Lace.C17.bpCell_fits",
         "Lace.C17.bpCell_truncates",
+        "Lace.C17.cut_only_what_does_not_fit",
         "Lace.C17.label_cell_rule",
         "Lace.C17.line_cell_rule",
         "Lace.C17.getSingleLine_eq_showSingleLine",
